@@ -499,6 +499,39 @@ func c10Run(c *hx.Ctx, tier, unit string) {
 				c10Auth(c, enc.Bytes(), fill(28, 0x77), "constructed")
 			}
 		}
+		// hand-set header words: what is encoded is what the value holds (the encoder writes fields, it
+		// does not substitute the current protocol constants)
+		for _, rev := range []uint16{0x0000, 0x0100, 0x0200, 0x0300, 0xffff} {
+			for _, ct := range []uint16{0x0EF1, 0x0002, 0x0000} {
+				if !c.Next() {
+					continue
+				}
+				var enc bytes.Buffer
+				data := fill(9, 0x22)
+				ts := c10Times()[0]
+				if p := hx.Try(func() {
+					v := signature.NewEFIVariableAuthentication2()
+					v.AuthInfo.Header.Length += uint32(len(data))
+					v.AuthInfo.Header.Revision = rev
+					v.AuthInfo.Header.CertType = signature.WINCertType(ct)
+					v.AuthInfo.CertData = data
+					v.Time = util.EFITime{Year: ts.Year, Month: ts.Month, Day: ts.Day, Hour: ts.Hour, Minute: ts.Minute, Second: ts.Second, Pad1: ts.Pad1,
+						Nanosecond: ts.Nanosecond, TimeZone: ts.TimeZone, Daylight: ts.Daylight, Pad2: ts.Pad2}
+					v.Marshal(&enc)
+				}); p != nil {
+					c.Violation("C10 constructing/encoding a descriptor ends in "+p.String(), map[string]any{"revision": rev, "type": ct})
+					continue
+				}
+				want := refauth.Auth2{Time: ts, Length: uint32(24 + len(data)), Revision: rev, Type: ct, CertType: guidPKCS7, CertData: data}
+				if !bytes.Equal(enc.Bytes(), want.Bytes()) {
+					c.Outcome("violation:constructed-encoding")
+					c.Violation("C10 descriptor: encoding of a constructed value differs from the fields it holds", map[string]any{"revision": rev, "type": ct, "encoded": hx8(enc.Bytes()), "want": hx8(want.Bytes())})
+					continue
+				}
+				c.Outcome("ok")
+				c.Nontrivial(enc.Bytes())
+			}
+		}
 	case "fixtures":
 		for _, f := range []string{"/repo/tests/data/signatures/varsign/PK.auth", "/repo/tests/data/signatures/varsign/db.auth", "/repo/tests/data/signatures/varsign/KEK.auth",
 			"/repo/tests/ovmf/keys/PK/PK.auth", "/repo/tests/ovmf/keys/db/db.auth", "/repo/tests/ovmf/keys/KEK/KEK.auth"} {
